@@ -506,7 +506,7 @@ HYPOT = '_ZN9fixedmath5hypotENS_7fixed_tES0_'
 K_SQRT_HYP = (SQRT, 'pre_sqrt_hyp', 'post_sqrt_hyp')
 for cfg in ('abacus', 'stdsqrt'):
     U('C14', 'c14.hypot.' + cfg, HYPOT, 'pre_c14', 'post_hypot', replace=[K_SQRT_HYP], cfg=cfg, cxx='fixedmath::hypot($1,$2)',
-      extra_flags=['--unsigned-overflow-check'], backends=MULBE, timeout=900)
+      extra_flags=['--unsigned-overflow-check'], backends=MULBE, timeout=900, native_post='native_hypot_ok')
 U('C14', 'c14.sqrt_bound', 'lem_c14_sqrt_bound', 'pre_c14_sqrtb', None, lemma=True, cxx='lem_c14_sqrt_bound($1,$2)', **INTQ)
 
 
